@@ -14,7 +14,7 @@ import pulsarbat as pb
 from harness import exact as X
 from harness.common import zlit, listlit
 
-VFILES = ['Gen/GenConsts.v', 'Model/Contract.v', 'Proofs/ContractProofs.v', 'Props/C16.v']
+VFILES = ['Gen/GenConsts.v', 'Model/Contract.v', 'Proofs/ContractProofs.v', 'Gen/GenContract.v', 'Proofs/ContractGen.v', 'Props/C16.v']
 ATTRS = ('sample_rate', 'start_time', 'center_freq', 'chan_bw', 'freq_align', 'pol_type', 'meta')
 
 HEADER = '''From Coq Require Import ZArith String List Bool. Import ListNotations.
